@@ -151,10 +151,55 @@ def _pre():
     resource.setrlimit(resource.RLIMIT_CORE, (0, 0))
 
 
+_TICK = os.sysconf("SC_CLK_TCK")
+
+
+_KIDS = {}
+
+
+def _stat_fields(pid):
+    with open("/proc/%s/stat" % pid) as f:
+        st = f.read()
+    return st[st.rindex(")") + 2:].split()
+
+
+def _tracee_cpu(strace_pid):
+    """CPU seconds (user+system, all threads) consumed so far by the children of strace
+    (found by scanning /proc for the parent pid once; /proc/<pid>/task/<tid>/children may be absent)"""
+    ent = _KIDS.get(strace_pid)
+    kids = ent[0] if ent else None
+    if ent:
+        ent[1] += 1
+    # children: the `cat` of the log pipe and the tracee; re-scan until both are there, then now and then
+    if not kids or len(kids) < 2 or ent[1] % 10 == 0:
+        kids = []
+        for d in os.listdir("/proc"):
+            if d.isdigit():
+                try:
+                    if int(_stat_fields(d)[1]) == strace_pid:
+                        kids.append(d)
+                except (OSError, ValueError, IndexError):
+                    pass
+        n = ent[1] if ent else 0
+        _KIDS.clear()
+        _KIDS[strace_pid] = [kids, n]
+    total = 0.0
+    for k in kids:
+        try:
+            f = _stat_fields(k)
+            total += (int(f[11]) + int(f[12])) / _TICK
+        except (OSError, ValueError, IndexError):
+            pass
+    return total
+
+
 def run_traced(cfg, argv, env, cwd, log, stdin=None, timeout=60, stdout_path=None, stall=None):
     """-> (returncode or None on timeout, stdout bytes, stderr tail, wall)
-    stall: kill when the strace log has not grown for that many seconds (every case writes a marker)"""
-    cmd = cfg["prefix"] + ["-o", log, "-e", "trace=" + cfg["trace"], "--"] + argv
+    stall: kill when the tracee has used that many CPU seconds while the strace log did not grow
+    (every case writes a marker line); `timeout` is only a last-resort wall-clock cap"""
+    # strace buffers a plain -o file (progress would be invisible); output to a pipe is line-buffered
+    out = ("|cat > '%s'" % log) if stall is not None else log
+    cmd = cfg["prefix"] + ["-o", out, "-e", "trace=" + cfg["trace"], "--"] + argv
     t0 = time.time()
     out_f = open(stdout_path, "wb") if stdout_path else subprocess.PIPE
     p = subprocess.Popen(cmd, env=env, cwd=cwd, stdin=subprocess.PIPE if stdin is not None else subprocess.DEVNULL,
@@ -163,10 +208,10 @@ def run_traced(cfg, argv, env, cwd, log, stdin=None, timeout=60, stdout_path=Non
         if stall is None:
             so, se = p.communicate(stdin, timeout=timeout)
         else:
-            last_size, last_t = -1, time.time()
+            last_size, last_cpu = -1, 0.0
             while True:
                 try:
-                    so, se = p.communicate(timeout=0.25)
+                    so, se = p.communicate(timeout=0.5)
                     break
                 except subprocess.TimeoutExpired:
                     pass
@@ -174,10 +219,12 @@ def run_traced(cfg, argv, env, cwd, log, stdin=None, timeout=60, stdout_path=Non
                     size = os.path.getsize(log)
                 except OSError:
                     size = -1
-                now = time.time()
+                cpu = _tracee_cpu(p.pid)
                 if size != last_size:
-                    last_size, last_t = size, now
-                if now - last_t > stall or now - t0 > timeout:
+                    last_size, last_cpu = size, cpu
+                # load-independent: the tracee burnt `stall` CPU seconds without a single traced call
+                if cpu - last_cpu > stall or time.time() - t0 > timeout:
+                    run_traced.last_kill = "cpu %.1f -> %.1f, log size %d, wall %.0f" % (last_cpu, cpu, size, time.time() - t0)
                     raise subprocess.TimeoutExpired(cmd, timeout)
         rc = p.returncode
     except subprocess.TimeoutExpired:
@@ -191,6 +238,9 @@ def run_traced(cfg, argv, env, cwd, log, stdin=None, timeout=60, stdout_path=Non
         out_f.close()
         so = b""
     return rc, so or b"", (se or b"")[-400:].decode("utf-8", "replace"), time.time() - t0
+
+
+run_traced.last_kill = ""
 
 
 def tz_files_of(tz, cwd):
@@ -351,7 +401,7 @@ def run_phase_shard(task):
         env = base_env(scr, tz)
         rc, _so, se, _wall = run_traced(cfg, [task["jaqmon"], "phase", base + ".jsonl", base + ".out"], env,
                                         os.path.join(scr, "cwd"), base + ".log", timeout=task["timeout"],
-                                        stall=task.get("stall", 8))
+                                        stall=task.get("stall", 6))
         a = analyse_phase_log(base + ".log", by_id, control_ids, tz, os.path.join(scr, "cwd"))
         res["markers"] += a["markers"]
         res["lines"] += a["lines"]
@@ -387,13 +437,20 @@ def run_phase_shard(task):
                     res["ends"][str(e)] = res["ends"].get(str(e), 0) + 1
         except (OSError, ValueError):
             pass
+        if not res["samples"]:
+            quiet = sorted(x for x in a["observed"] if x not in a["phase_events"] and x[0] not in control_ids)
+            if quiet:
+                rid, k = quiet[len(quiet) // 2]
+                res["samples"].append({"program": by_id[rid]["prog"], "case": by_id[rid]["meta"][k], "tz": tz,
+                                       "input_wire": by_id[rid]["cases"][k]["input"], "syscalls_in_phase": []})
         if len(res["samples"]) < 3:
             for (rid, k), evs in sorted(a["phase_events"].items()):
                 if rid not in control_ids and len(res["samples"]) < 3:
                     res["samples"].append({"program": by_id[rid]["prog"], "case": by_id[rid]["meta"][k] if k >= 0 else None,
                                            "tz": tz, "syscalls_in_phase": evs})
         if res["rounds"] == 1 and a["markers"] == 0:
-            res["broken"] = "no marker syscall found in %s.log (rc=%s, stderr=%s)" % (base, rc, se[-200:])
+            res["broken"] = "no marker syscall found in %s.log (rc=%s, stderr=%s, watchdog=%s)" % (
+                base, rc, se[-200:], run_traced.last_kill)
             break
         for ext in (".log", ".jsonl", ".out"):
             try:
